@@ -340,6 +340,15 @@ def main():
         print(f"VIOLATION property={pid} replay={path}{tail}")
         if n_unlisted >= 5:
             break
+    if not proof_ok and n_unlisted == 0 and violations:
+        # every violation the harness found is a listed known finding, but a proof obligation is broken: the
+        # property is no longer shown to hold, and a known finding must not mask that
+        v = {"kind": "proof-obligation", "what": f"theorem no longer checks: {ctx.proof['failed']}",
+             "theorems": ctx.proof["obligations"], "coq_log_tail": ctx.proof["log"][-1500:], "no_failing_input_found": True}
+        violations.append(v)
+        n_unlisted += 1
+        path = write_replay(pid, v)
+        print(f"VIOLATION property={pid} replay={path} no-failing-input-found")
 
     trusted = sorted({ax for axs in ctx.proof["axioms"].values() for ax in axs})
     cov = {
